@@ -547,3 +547,7 @@ TECHNIQUE = 'Lean 4 proof (induction over declared variables; walking = lexical 
 from harness import samenode as _sn                     # noqa: E402
 from harness.mixins import add_family as _add_family    # noqa: E402
 _add_family(globals(), _sn, 'samenode', _sn.oracle, share=0.06)
+
+# several ports on one node, the update object reused by the process from call to call (F35)
+from harness import reuseupd as _ru                     # noqa: E402
+_add_family(globals(), _ru, 'reuseupd', _ru.oracle, share=0.05)
